@@ -60,8 +60,18 @@ func (r *ChunkReader) Read(p []byte) (int, error) {
 		return 0, io.EOF
 	}
 	last := r.r.LastChunk()
-	if vOffset(last.End) >= vOffset(r.chunks[0].End) {
-		return 0, io.EOF
+	for vOffset(last.End) >= vOffset(r.chunks[0].End) {
+		// The current chunk is empty or exhausted; this does
+		// not end the stream unless it is the last chunk.
+		r.chunks = r.chunks[1:]
+		if len(r.chunks) == 0 {
+			return 0, io.EOF
+		}
+		err := r.r.Seek(r.chunks[0].Begin)
+		if err != nil {
+			return 0, err
+		}
+		last = r.r.LastChunk()
 	}
 
 	// Ensure the byte slice does not extend beyond the end of
